@@ -69,6 +69,15 @@ class Ctx:
         self.assumptions: List[str] = []
         self.instances: Dict[str, int] = {}
         self.dynamic: List[str] = []
+        self.undecided: List[str] = []
+
+    def run(self, fn, *args, **kwargs):
+        """Run one rule; an undecidable rule does not hide what the other rules find."""
+        try:
+            return fn(*args, **kwargs)
+        except AnalysisError as exc:
+            self.undecided.append(str(exc))
+            return None
 
     # -- obligations -----------------------------------------------------------
     def ok(self, rule: str, where: str, what: str, node: Optional[ast.AST] = None, fi: Optional[FuncInfo] = None) -> None:
